@@ -304,8 +304,8 @@ class Check:
     def key_of(self, rec):
         return hashlib.sha1(json.dumps(rec, sort_keys=True).encode()).hexdigest()[:16]
 
-    def judged(self, rec, nontrivial=True):
-        self.evaluations += 1
+    def judged(self, rec, nontrivial=True, n=1):
+        self.evaluations += max(1, n)
         if nontrivial:
             r = dict(rec)
             r.pop('i', None)
@@ -346,11 +346,11 @@ class Check:
                 continue
             kind = v.get('v')
             if kind == 'ok':
-                self.judged(rec)
+                self.judged(rec, n=v.get('n', 1))
             elif kind == 'unjudgeable':
                 self.unjudgeable += 1
             elif kind in ('mismatch', 'crash'):
-                self.judged(rec)
+                self.judged(rec, n=v.get('n', 1))
                 self.disagreement(rec, v, replayer)
             else:
                 raise MachineryError('replayer verdict %r on line %s' % (v, json.dumps(rec)[:500]))
